@@ -1,5 +1,5 @@
 \* quick tier: contracts over the first 5 names
-CONSTANT MaxCalls = 3
+CONSTANT MaxCalls = 2
 CONSTANT MaxSize = 3
 CONSTANT PoolN = 5
 CONSTANT GenStride = 1
